@@ -536,6 +536,131 @@ class Grammar:
                 return self.trailing_excluded(self.rules[q][1], stack + (q,))
         return [(frozenset(), frozenset(), False)]
 
+    # ---- keywords that may follow a repetition of names -------------------------------
+    def word_of(self, name):
+        """the word of a keyword rule `@{ "word" ~ !NameContinue }` (None for any other rule)"""
+        r = self.rules.get(name)
+        if r is None:
+            return None
+        e = r[1]
+        if e[0] == "seq" and e[1] and e[1][0][0] == "str" and e[1][0][1].replace("_", "a").isalpha() and \
+                all(x[0] in ("neg", "pos") for x in e[1][1:]) and len(e[1]) > 1:
+            return e[1][0][1]
+        return None
+
+    def first_words(self, e, stack=()):
+        """(keywords, any_name, nullable): the keyword tokens a match of e can begin with, whether it can begin with an arbitrary name;
+        look-aheads are ignored (over-approximation)"""
+        k = e[0]
+        if k == "str":
+            if e[1] and e[1].replace("_", "a").isalpha():
+                return {e[1]}, False, False
+            return set(), False, e[1] == ""
+        if k == "insens":
+            return ({e[1].lower()} if e[1].isalpha() else set()), False, e[1] == ""
+        if k in ("neg", "pos"):
+            return set(), False, True
+        if k == "range":
+            return set(), False, False
+        if k == "seq":
+            ws, an = set(), False
+            for x in e[1]:
+                w2, a2, n2 = self.first_words(x, stack)
+                ws |= w2
+                an = an or a2
+                if not n2:
+                    return ws, an, False
+            return ws, an, True
+        if k == "choice":
+            ws, an, nl = set(), False, False
+            for x in e[1]:
+                w2, a2, n2 = self.first_words(x, stack)
+                ws, an, nl = ws | w2, an or a2, nl or n2
+            return ws, an, nl
+        if k in ("opt", "star"):
+            w2, a2, _ = self.first_words(e[1], stack)
+            return w2, a2, True
+        if k == "plus":
+            return self.first_words(e[1], stack)
+        if k == "rep":
+            w2, a2, n2 = self.first_words(e[1], stack)
+            return w2, a2, n2 or e[2] == 0
+        if k == "id":
+            q = e[1]
+            if q in ("SOI", "EOI"):
+                return set(), False, True
+            w = self.word_of(q)
+            if w is not None:
+                return {w}, False, False
+            if q == "Name":
+                return set(), True, False
+            if q in self.rules and q not in stack:
+                return self.first_words(self.rules[q][1], stack + (q,))
+        return set(), False, False
+
+    def repetition_follows(self):
+        """[(rule, node, follow keywords)] for every `x*`, `x+`, `x?` of the grammar: the keyword tokens that can come directly after
+        the repetition (FOLLOW sets, look-aheads ignored)"""
+        follow = {n: set() for n in self.rules}
+        loops = {}
+
+        def walk(e, fw, rule):
+            k = e[0]
+            if k == "seq":
+                items = e[1]
+                for i, x in enumerate(items):
+                    ws, _, nl = self.first_words(("seq", items[i + 1:]))
+                    walk(x, ws | (fw if nl else set()), rule)
+            elif k == "choice":
+                for x in e[1]:
+                    walk(x, fw, rule)
+            elif k in ("opt", "star", "plus", "rep"):
+                inner_first = self.first_words(e[1])[0] if k != "opt" else set()
+                loops[(rule, id(e))] = (rule, e, set(fw))
+                walk(e[1], fw | inner_first, rule)
+            elif k == "id" and e[1] in follow:
+                if not fw <= follow[e[1]]:
+                    follow[e[1]] |= fw
+                    self._fchanged = True
+        for _ in range(30):
+            self._fchanged = False
+            for n, (mod, body) in self.rules.items():
+                walk(body, set(follow[n]), n)
+            if not self._fchanged:
+                break
+        return list(loops.values())
+
+    def name_start_guards(self, e, guards=frozenset(), stack=()):
+        """for every way a match of e can begin with an arbitrary name: the keywords its leading negative look-aheads exclude"""
+        k = e[0]
+        if k == "seq":
+            g2 = set(guards)
+            for x in e[1]:
+                if x[0] == "neg":
+                    g2 |= self.first_words(x[1])[0]
+                    continue
+                if x[0] == "pos":
+                    continue
+                out = self.name_start_guards(x, frozenset(g2), stack)
+                if self.first_words(x)[2]:
+                    out = out + self.name_start_guards(("seq", e[1][e[1].index(x) + 1:]), frozenset(g2), stack)
+                return out
+            return []
+        if k == "choice":
+            out = []
+            for x in e[1]:
+                out += self.name_start_guards(x, guards, stack)
+            return out
+        if k in ("opt", "star", "plus", "rep"):
+            return self.name_start_guards(e[1], guards, stack)
+        if k == "id":
+            q = e[1]
+            if q == "Name":
+                return [frozenset(guards)]
+            if self.word_of(q) is None and q in self.rules and q not in stack:
+                return self.name_start_guards(self.rules[q][1], guards, stack + (q,))
+        return []
+
     # ---- PEG ordered-choice analysis ---------------------------------------------
     _CLASSES = {
         "ASCII_DIGIT": "0123456789", "ASCII_NONZERO_DIGIT": "123456789", "ASCII_BIN_DIGIT": "01", "ASCII_OCT_DIGIT": "01234567",
